@@ -13,6 +13,10 @@ T2 terminator     every function that calls cstl_vector_resize on a string's vec
 T3 position guards   insert_* : everything that touches the buffer is dominated by pos <=u size, the
         other edge aborts; find_ch / find_str / substr / erase: by pos <u size, the other edge aborts.
 T4 str() never returns NULL (the static NUL when there is no storage).
+T5 byte counts   handed to memcpy / memmove / memset in the wide instantiation are character counts scaled by the
+        character size; a memset there may only fill with 0 (it replicates a byte, not a character).
+T6 grow fill     *_resize writes NUL from the old size on (index = the loop variable initialised with the size read before
+        the vector was resized); a fill that starts one later is a violation, an unrecognised fill form gets no verdict.
 NOT decided: equality with a reference string, agreement of find/compare with the C library.
 """
 import os
@@ -172,11 +176,62 @@ def run(m, rep, tier):
                 ok = True
             elif li is not None and li.op == 'shl' and const_int(li.o[1]) == 2:
                 ok = True
-            if ok:
+            if ok and cal.startswith('llvm.memset') and csz > 1 and const_int(c.o[1]) != 0:
+                t5.violation(site, 'the wide-character instantiation fills characters with memset at %s: memset replicates one byte, so every character '
+                             'written is 0x01010101 * (ch & 0xff) instead of ch (only a fill value of 0 is width-independent)' % c.loc(), c.loc(), {})
+            elif ok:
                 t5.ok(site, 'length %s' % ('x %d' % csz if csz > 1 else 'in bytes = characters'), c.loc())
             else:
                 t5.violation(site, 'the wide-character instantiation passes a character count as a byte count to %s at %s (not scaled by sizeof(wchar_t)): '
                              'only part of the characters is copied / cleared' % (cal.split('.')[1], c.loc()), c.loc(), {})
+
+    # ---- T6 --------------------------------------------------------------------------
+    t6 = rep.rule('T6', 'resize fills the grown part with NUL starting at the old size (a string without storage has no stored terminator there)', floor=2)
+    from ..ir import unit_step
+    for pre in PREFIXES:
+        f = m.ifn(pre + 'resize')
+        if f is None:
+            t6.undecided(pre + 'resize', 'not in the inlined model')
+            continue
+        szv = size_values(f)
+        pv = Prover(f)
+        found = []
+        for st in f.all_insts():
+            if st.op != 'store' or const_int(st.o[0]) != 0 or not st.srcfn.endswith('_resize') or st.srcfn.endswith('__resize'):
+                continue
+            g = f.get(st.o[1])
+            if g is None or g.op != 'getelementptr' or not g.x.get('path') or 'idx' not in g.x['path'][0]:
+                continue
+            idx = g.x['path'][0]['idx']
+            base, step = unit_step(f, idx)
+            cand = [(idx, 0)] + ([(base, step)] if step else [])
+            for ref, off in cand:
+                pi = f.get(ref) if isinstance(ref, str) else None
+                if pi is None or pi.op != 'phi':
+                    continue
+                inits = [o for o in pi.o if unit_step(f, o)[0] != pi.ref]
+                if len(inits) != 1:
+                    continue
+                found.append((st, pi, off, inits[0]))
+        site = pre + 'resize'
+        if not found:
+            t6.ok(site, 'NOT DECIDED: no NUL-fill loop recognised (another fill form)', floc(m, f))
+            continue
+        bad = []
+        notes = []
+        for st, pi, off, init in found:
+            if init not in szv:
+                notes.append('NOT DECIDED: the fill at %s starts from %s, not recognisably the old size' % (st.loc(), nw.describe(f, init)))
+                continue
+            if off != 0:
+                bad.append('the NUL fill at %s starts at old size %+d: position `old size` is never written, and a string that had no storage '
+                           '(fresh or cleared) has no terminator stored there, so character [old size] is whatever the allocator returned' % (st.loc(), off))
+            else:
+                notes.append('fill loop writes [old size, ...) at %s' % st.loc())
+        if bad:
+            t6.violation(site, '; '.join(bad), floc(m, f), {})
+        else:
+            t6.ok(site, '; '.join(notes), floc(m, f))
 
     # ---- T4 --------------------------------------------------------------------------
     t4 = rep.rule('T4', 'str() never returns NULL', floor=2)
@@ -194,6 +249,12 @@ def run(m, rep, tier):
             t4.violation(f.name, '; '.join(bad), floc(m, f), {})
         else:
             t4.ok(f.name, 'every returned value is a global address or proven non-NULL', floc(m, f))
+
+    # ---- T7: swap completeness ------------------------------------------------------------
+    from .util import check_swap_complete
+    _sw = rep.rule('T7', 'swap exchanges every member of the two strings', floor=2)
+    for _n in ('cstl_string_swap', 'cstl_wstring_swap'):
+        check_swap_complete(m, _n, _sw)
 
 
 def check_terminator(m, f, pf, rule):
